@@ -221,3 +221,34 @@ func H_C11_SizeLimit() {
 		nd.Assert(gerr == nil && len(g) == 128 && g[lastK] == lastV, "sizelimit/same-map")
 	}
 }
+
+// H_C11_Values: ValuesToMapping on unsorted MappingValues (2 pairs, symbolic keys/values) gives the same canonical bytes as GoMapToMapping of the same pairs, and Values()/Get agree with the map.
+//
+//verif:props C11 C19
+//verif:witness built
+func H_C11_Values() {
+	k1, k2 := nd.String(nd.IntRange(1, 2)), nd.String(nd.IntRange(1, 2))
+	v1, v2 := nd.String(nd.IntRange(0, 1)), nd.String(nd.IntRange(0, 1))
+	nd.Assume(k1 != k2)
+	mv := data.MappingValues{}
+	var err error
+	mv, err = mv.Add(k1, v1)
+	nd.Assume(err == nil)
+	mv, err = mv.Add(k2, v2)
+	nd.Assume(err == nil)
+	a, aerr := data.ValuesToMapping(mv)
+	b, berr := data.GoMapToMapping(map[string]string{k1: v1, k2: v2})
+	nd.Assert(aerr == nil && berr == nil && a != nil && b != nil, "values/both-constructed")
+	if aerr != nil || berr != nil || a == nil || b == nil {
+		return
+	}
+	nd.Cover("built")
+	nd.Assert(bytes.Equal(a.Data(), b.Data()), "values/same-canonical-bytes-as-gomap")
+	ks, vs := []string{k1, k2}, []string{v1, v2}
+	sortPairs(ks, vs)
+	nd.Assert(bytes.Equal(a.Data(), refEncodeMapping(ks, vs)), "values/canonical-sorted-encoding")
+	q, _ := data.ToI2PString(k2)
+	got := a.Values().Get(q)
+	d, derr := got.Data()
+	nd.Assert(got != nil && derr == nil && d == v2, "values/get-returns-value-of-key")
+}
